@@ -515,4 +515,43 @@ theorem roundtrip_bytes (c : Cfg) (hs : c.env.flat = true) (L : OracleLaws c.O) 
     root (.msg m) t ht)]
   exact hdec
 
+/-- the shape of an encoded `Any` -/
+theorem any_shape (env : Env) (O : Oracle) (f : Nat) (pb : Bool) (v : PVal) (t : PTree)
+    (h : encValue env O f (.any pb) v = .ok t) :
+    ∃ tn l1 l2 l3 data, Wire.anyTypeName v = some tn ∧
+      t = .obj (.cons (ascii "!type") l1 (.str tn l2) (.cons (ascii "value") l3 data (.nil .closed))) := by
+  cases f with
+  | zero => simp [encValue] at h
+  | succ f =>
+    simp only [encValue] at h
+    cases v <;> simp only [] at h <;> try (cases h)
+    case anyJ5 tn proto j5 ik iroot inner =>
+      split at h
+      · next data hdata =>
+        split at h
+        · next typeLit tnNode valueLit h1 h2 h3 =>
+          cases h
+          unfold strNode at h2
+          cases ha : appendString tn with
+          | ok lit => simp only [ha] at h2; cases h2; exact ⟨tn, _, _, _, _, rfl, rfl⟩
+          | err e => simp [ha] at h2
+          | panic w => simp [ha] at h2
+        all_goals cases h
+      · cases h
+      · cases h
+    case anyPb url val ik iroot inner =>
+      split at h
+      · next data hdata =>
+        split at h
+        · next typeLit tnNode valueLit h1 h2 h3 =>
+          cases h
+          unfold strNode at h2
+          cases ha : appendString (trimPrefix url anyPrefix) with
+          | ok lit => simp only [ha] at h2; cases h2; exact ⟨_, _, _, _, _, rfl, rfl⟩
+          | err e => simp [ha] at h2
+          | panic w => simp [ha] at h2
+        all_goals cases h
+      · cases h
+      · cases h
+
 end J5V.Codec
